@@ -617,3 +617,35 @@ def oracle_c18(ctx: Ctx, n=None):
             if "X" not in ch:
                 break
     ctx.sample({"stream": "oracle-C18", "filename": "protobuf-5.27.2-py3-none-manylinux_2_31_armv7l.whl"})
+
+
+def oracle_gap_c08(ctx: Ctx):
+    """adjacent versions (no version between X.Y and X.Y.post0.dev0): a requires_python that admits no version must not accept any
+    wheel (recorded finding adjacent-gap, cf. C05_gap_refuted)"""
+    from dep_logic.tags import EnvSpec
+    for rp, ptag, abi in ((">3.9,<3.9.post0.dev0", "cp39", "cp39"), (">3.10,<3.10.post0.dev0", "py3", "none"), (">3.8,<3.8.post0.dev0", "cp38", "abi3")):
+        ctx.count("oracle-gap", 1, nontrivial_key=("gap", rp))
+        try:
+            got = EnvSpec.from_spec(rp)._evaluate_python(ptag, abi)
+        except Exception as e:  # noqa: BLE001
+            ctx.finding(f"gap-raise|{rp}", f"_evaluate_python raised {type(e).__name__}", {"requires_python": rp, "tag": ptag, "abi": abi}, None, repr(e))
+            continue
+        if got is not None:
+            ctx.finding(f"adjacent-gap|{rp}|{ptag}-{abi}", "a requires_python that admits no version (adjacent bounds) accepts a wheel",
+                        {"requires_python": rp, "tag": ptag, "abi": abi}, expected=None, observed=got)
+
+
+def oracle_gap_c16(ctx: Ctx):
+    """the same gap seen through monotonicity: A admits no version, so B admits every version A admits - yet A accepts a wheel B rejects"""
+    from dep_logic.tags import EnvSpec
+    for ra, rb, ptag, abi in ((">3.9,<3.9.post0.dev0", "<3.0", "cp39", "cp39"), (">3.10,<3.10.post0.dev0", ">=3.11", "cp310", "cp310")):
+        ctx.count("oracle-gap", 1, nontrivial_key=("gap", ra))
+        try:
+            a = EnvSpec.from_spec(ra)._evaluate_python(ptag, abi)
+            b = EnvSpec.from_spec(rb)._evaluate_python(ptag, abi)
+        except Exception as e:  # noqa: BLE001
+            ctx.finding(f"gap-raise|{ra}", f"_evaluate_python raised {type(e).__name__}", {"A": ra, "B": rb}, None, repr(e))
+            continue
+        if a is not None and b is None:
+            ctx.finding(f"adjacent-gap|{ra}|{rb}|{ptag}-{abi}", "B admits every version A admits (A admits none: adjacent bounds), yet a wheel compatible with A is not compatible with B",
+                        {"A": ra, "B": rb, "tag": ptag, "abi": abi}, expected="compatible with B", observed={"A": a, "B": b})
